@@ -4,6 +4,7 @@ import (
 	"bufio"
 	"fmt"
 	"io"
+	"os"
 	"os/exec"
 	"strconv"
 	"strings"
@@ -272,7 +273,14 @@ func (s *Solver) CheckModel(extra *Term, neg bool, vars []*Term) (SatResult, map
 	if len(s.Errors) > nerr {
 		r = Unknown
 	}
-	s.Time += time.Since(start)
+	el := time.Since(start)
+	s.Time += el
+	if slowQ > 0 && el > slowQ {
+		slowN++
+		fn := fmt.Sprintf("/tmp/slowq_%d_%d.smt2", os.Getpid(), slowN)
+		os.WriteFile(fn, []byte(s.Script(extra, neg)), 0o644)
+		fmt.Fprintf(os.Stderr, "slow query %v (%s) levels=%d -> %s\n", el, r, len(s.levels), fn)
+	}
 	switch r {
 	case Sat:
 		s.SatQ++
@@ -417,3 +425,9 @@ func (s *Solver) Script(extra *Term, neg bool) string {
 	sb.WriteString("(check-sat)\n")
 	return sb.String()
 }
+
+var slowQ = func() time.Duration {
+	ms, _ := strconv.Atoi(os.Getenv("GOSYM_SLOWQ"))
+	return time.Duration(ms) * time.Millisecond
+}()
+var slowN int
